@@ -415,3 +415,181 @@ Section ArrayExpr.
       + exact O2.
   Qed.
 End ArrayExpr.
+
+(* ====================================================================== *)
+(* map literals                                                            *)
+(* ====================================================================== *)
+Section Maps.
+  Variable E : env.
+  Hypothesis NT : no_tyerr E.
+
+  (* a key token: as_ident turns it into the identifier [k] (identifiers and keywords) *)
+  Definition key_tok_ok (kt : token) (k : str) : Prop :=
+    ttype (as_ident kt) = T_IDENT /\ tlit (as_ident kt) = k /\ wsish kt = false /\
+    ttype kt <> T_RCURLY /\ ttype kt <> T_EOF.
+
+  Definition pair_toks (p : token * list token * list token) : list token :=
+    let '(kt, v, sep) := p in kt :: mk T_COLON :: v ++ sep.
+  Definition pairs_toks (ps : list (token * list token * list token)) : list token := flat_map pair_toks ps.
+
+  Fixpoint pseps_ok (ps : list (token * list token * list token)) : Prop :=
+    match ps with
+    | [] => True
+    | (_, _, sep) :: rest => wsrun sep = true /\ (rest <> [] -> sep <> []) /\ pseps_ok rest
+    end.
+
+  Lemma has_key_In k (acc : list (str * tree)) : has_key k acc = true -> In k (map fst acc).
+  Proof.
+    induction acc as [|[k' v] t IH]; simpl; [discriminate|]. intro H. apply orb_true_iff in H as [H|H].
+    - left. apply str_eqb_eq in H. exact H.
+    - right. auto.
+  Qed.
+
+  (* advance over a token that is directly followed by a non-blank token, outside a whitespace-sensitive context or not *)
+  Lemma advance_plain st t rest' :
+    rest st = t :: rest' -> wsish (look0 rest') = false ->
+    rest (advance st) = rest' /\ wss (advance st) = wss st /\ errs (advance st) = errs st.
+  Proof.
+    intros Hr Hn. destruct (advance_run st t [] rest' Hr eq_refl Hn) as (run' & A1 & _ & A3 & A4 & A5).
+    destruct run'; [|simpl in A3; lia]. auto.
+  Qed.
+
+  Lemma pop_wss_nop st b w :
+    wss st = b :: w -> (hd false w = false -> is_ws (look0 (rest st)) = false) ->
+    rest (pop_wss st) = rest st /\ wss (pop_wss st) = w /\ errs (pop_wss st) = errs st.
+  Proof.
+    intros Hw Hc. unfold pop_wss.
+    set (st1 := {| prev := prev st; rest := rest st; peek := peek st; wss := tl (wss st); errs := errs st; used := used st |}).
+    assert (I1 : is_wss st1 = hd false w) by (unfold is_wss, st1; cbn; rewrite Hw; reflexivity).
+    rewrite I1. destruct (hd false w) eqn:Hh; cbn [negb andb].
+    - unfold st1; cbn. rewrite Hw. auto.
+    - assert (C : is_ws (cur st1) = false) by (unfold cur, st1; cbn; apply Hc; reflexivity).
+      rewrite C. unfold st1; cbn. rewrite Hw. auto.
+  Qed.
+
+  Lemma map_pairs_loop f : forall ps trees acc st rest0 fuel outer,
+    Forall2 (fun p t => let '(kt, v, _) := p in RT E true v (snd t) /\ head_ok v /\ key_tok_ok kt (fst t)) ps trees ->
+    pseps_ok ps ->
+    NoDup (map fst acc ++ map fst trees) ->
+    rest st = pairs_toks ps ++ mk T_RCURLY :: rest0 ->
+    wss st = false :: outer ->
+    (forall p, In p ps -> 2 * List.length (snd (fst p)) <= f) ->
+    List.length (pairs_toks ps) < fuel ->
+    exists st', parse_map_pairs E (parse_expr E f) fuel acc st = Some (Some (rev acc ++ trees), st')
+                /\ same3 st st' (mk T_RCURLY :: rest0).
+  Proof.
+    induction ps as [|[[kt v] sep] ps IH]; intros trees acc st rest0 fuel outer HF Hseps Hnd Hr Hw Hf Hfuel.
+    - inversion HF; subst. cbn [pairs_toks flat_map app] in Hr.
+      destruct fuel as [|fu]; [simpl in Hfuel; lia|]. cbn [parse_map_pairs]. unfold cur_t, cur. rewrite Hr. cbn.
+      exists st. rewrite app_nil_r. split; [reflexivity | repeat split; exact Hr].
+    - inversion HF as [|? kt' ? trees' Hp HF']; subst. destruct kt' as [k t]. cbn [fst snd] in Hp.
+      unfold key_tok_ok in Hp. destruct Hp as (Hrt & Hhd & Hk1 & Hk2 & Hk3 & Hk4 & Hk5). cbn [fst snd] in *.
+      cbn [pseps_ok] in Hseps. destruct Hseps as (Hsep & Hne & Hseps').
+      cbn [pairs_toks flat_map pair_toks] in Hr. fold (pairs_toks ps) in Hr.
+      destruct fuel as [|fu]; [simpl in Hfuel; lia|]. cbn [parse_map_pairs].
+      assert (Hcur : cur st = kt) by (unfold cur; rewrite Hr; reflexivity).
+      assert (Hct : cur_t st = ttype kt) by (unfold cur_t; rewrite Hcur; reflexivity).
+      rewrite Hct, Hcur, Hk1, Hk2.
+      set (rest1 := sep ++ pairs_toks ps ++ mk T_RCURLY :: rest0).
+      assert (Hr1 : rest st = kt :: mk T_COLON :: v ++ rest1).
+      { rewrite Hr. unfold rest1. cbn [app]. rewrite <- !app_assoc. reflexivity. }
+      destruct (advance_plain st kt (mk T_COLON :: v ++ rest1) Hr1 eq_refl) as (A1 & A2 & A3).
+      (* the key is new *)
+      assert (Hnew : has_key k acc = false).
+      { destruct (has_key k acc) eqn:Hh; [|reflexivity]. apply has_key_In in Hh.
+        exfalso. cbn [map fst] in Hnd. apply NoDup_remove_2 in Hnd. apply Hnd. apply in_or_app. left. exact Hh. }
+      rewrite Hnew.
+      assert (Ac : assert_token T_COLON (advance st) = (true, advance st)).
+      { unfold assert_token, cur_t, cur. rewrite A1. reflexivity. }
+      rewrite Ac. cbn [snd].
+      destruct v as [|v0 v']; [contradiction|].
+      assert (Hv0 : wsish (look0 ((v0 :: v') ++ rest1)) = false).
+      { cbn [app look0 hd]. cbn [head_ok] in Hhd. unfold wsish. destruct (ttype v0); try contradiction; reflexivity. }
+      destruct (advance_plain (advance st) (mk T_COLON) ((v0 :: v') ++ rest1) A1 Hv0) as (B1 & B2 & B3).
+      set (st3 := advance (advance st)) in *.
+      assert (Hnext : wsish (look0 (pairs_toks ps ++ mk T_RCURLY :: rest0)) = false).
+      { destruct ps as [|[[kt2 v2] sep2] ps2]; [reflexivity|].
+        inversion HF' as [|? kt3 ? ? Hp2 _]; subst. destruct kt3 as [k2 t2]. cbn [fst snd] in Hp2. unfold key_tok_ok in Hp2.
+        destruct Hp2 as (_ & _ & _ & _ & Hw2 & _). exact Hw2. }
+      destruct (Hrt (push_wss true st3) rest1 f) as (st4 & P1 & Q1 & Q2 & Q3); auto.
+      { intro; discriminate. }
+      { unfold rest1. apply stop_after_item; auto. intros ->.
+        destruct ps as [|p2 ps2]; [cbn [pairs_toks flat_map app look0 hd]; change (ttype (mk T_RCURLY)) with T_RCURLY; apply Nat.le_refl
+                               | exfalso; apply Hne; [discriminate | reflexivity]]. }
+      { apply (Hf (kt, v0 :: v', sep)). left. reflexivity. }
+      unfold parse_expr_wss. rewrite P1. cbn [ret].
+      destruct (pop_wss_run st4 true (wss st3) sep (pairs_toks ps ++ mk T_RCURLY :: rest0)) as (run' & C1 & C2 & C3 & C4 & C5); auto.
+      unfold tyerr. rewrite NT.
+      destruct (pmw_run (S fu) run' (pop_wss st4) (pairs_toks ps ++ mk T_RCURLY :: rest0)) as (st5 & P2 & D1 & D2 & D3); auto.
+      { unfold pairs_toks in Hfuel. cbn [flat_map pair_toks] in Hfuel. simpl in Hfuel. rewrite !app_length in Hfuel. lia. }
+      rewrite P2.
+      destruct (IH trees' ((k, t) :: acc) st5 rest0 fu outer HF' Hseps') as (st' & P3 & F1 & F2 & F3); auto.
+      { cbn [map fst]. cbn [map fst] in Hnd. apply NoDup_cons.
+        - apply NoDup_remove_2 in Hnd. intro Hin. apply Hnd. apply in_app_or in Hin as [Hin|Hin]; apply in_or_app; auto.
+        - apply NoDup_remove_1 in Hnd. exact Hnd. }
+      { rewrite D2, C4, B2, A2. exact Hw. }
+      { intros p Hp. apply Hf. right. exact Hp. }
+      { unfold pairs_toks in Hfuel |- *. cbn [flat_map pair_toks] in Hfuel. simpl in Hfuel. rewrite !app_length in Hfuel. lia. }
+      exists st'. split.
+      + destruct (ttype kt); try (exfalso; auto; fail); rewrite P3; cbn [rev]; rewrite <- app_assoc; reflexivity.
+      + repeat split; auto; [rewrite F2, D2, C4, B2, A2 | rewrite F3, D3, C5, Q3]; auto.
+        cbn [push_wss errs]. rewrite B3, A3. reflexivity.
+  Qed.
+
+  Lemma pairs_toks_len_item ps p : In p ps -> List.length (snd (fst p)) <= List.length (pairs_toks ps).
+  Proof.
+    induction ps as [|x ps IH]; intro H; [contradiction|]. unfold pairs_toks. cbn [flat_map]. rewrite app_length.
+    destruct H as [->|H].
+    - destruct p as [[kt v] sep]. cbn [pair_toks fst snd]. simpl. rewrite app_length. lia.
+    - specialize (IH H). unfold pairs_toks in IH. lia.
+  Qed.
+
+  (* a map literal "{" w0 key ":" value sep ... "}" as a whole expression, in either mode *)
+  Theorem map_literal_rt w w0 ps trees :
+    wsrun w0 = true ->
+    Forall2 (fun p t => let '(kt, v, _) := p in RT E true v (snd t) /\ head_ok v /\ key_tok_ok kt (fst t)) ps trees ->
+    pseps_ok ps -> NoDup (map fst trees) ->
+    RT E w (mk T_LCURLY :: w0 ++ pairs_toks ps ++ [mk T_RCURLY]) (TMap trees).
+  Proof.
+    intros Hw0 HF Hseps Hnd st rest0 fuel Hw Hr Hws Hstop Hfuel.
+    set (body := pairs_toks ps) in *.
+    assert (Hlen : List.length (mk T_LCURLY :: w0 ++ body ++ [mk T_RCURLY]) = S (List.length w0 + List.length body + 1)).
+    { cbn [List.length]. rewrite !app_length. simpl. lia. }
+    rewrite Hlen in Hfuel.
+    destruct fuel as [|f]; [lia|]. rewrite parse_expr_S.
+    assert (Hr2 : rest st = mk T_LCURLY :: w0 ++ (body ++ mk T_RCURLY :: rest0)).
+    { rewrite Hr. cbn [app]. rewrite <- !app_assoc. reflexivity. }
+    assert (Hcur : cur_t st = T_LCURLY) by (unfold cur_t, cur; rewrite Hr2; reflexivity).
+    unfold parse_prefix. rewrite Hcur. unfold parse_literal, cur. rewrite Hr2. cbn [look0 hd ttype mk].
+    unfold parse_map_literal.
+    assert (Hnext : wsish (look0 (body ++ mk T_RCURLY :: rest0)) = false).
+    { unfold body. destruct ps as [|[[kt2 v2] sep2] ps2]; [reflexivity|].
+      inversion HF as [|? kt3 ? ? Hp2 _]; subst. destruct kt3 as [k2 t2]. cbn [fst snd] in Hp2. unfold key_tok_ok in Hp2.
+      destruct Hp2 as (_ & _ & _ & _ & Hw2 & _). exact Hw2. }
+    assert (Hr3 : rest (push_wss false st) = mk T_LCURLY :: w0 ++ (body ++ mk T_RCURLY :: rest0)) by exact Hr2.
+    destruct (advance_run (push_wss false st) (mk T_LCURLY) w0 _ Hr3 Hw0 Hnext) as (run' & A1 & A2 & A3 & A4 & A5).
+    destruct (pmw_run f run' (advance (push_wss false st)) (body ++ mk T_RCURLY :: rest0)) as (st2 & P2 & B1 & B2 & B3); auto; [lia|].
+    rewrite P2.
+    destruct (map_pairs_loop f ps trees [] st2 rest0 f (wss st) HF Hseps) as (st3 & P3 & C1 & C2 & C3); auto.
+    { rewrite B2, A4. reflexivity. }
+    { intros p Hp. pose proof (pairs_toks_len_item ps p Hp). fold body in H. lia. }
+    { fold body. lia. }
+    rewrite P3. cbn [rev app].
+    assert (A : assert_token T_RCURLY st3 = (true, st3)).
+    { unfold assert_token, cur_t, cur. rewrite C1. reflexivity. }
+    rewrite A.
+    assert (W4 : wss (advance_wss st3) = false :: wss st) by (cbn; rewrite C2, B2, A4; reflexivity).
+    assert (R4 : rest (advance_wss st3) = rest0) by (rewrite rest_advance_wss, C1; reflexivity).
+    destruct (pop_wss_nop (advance_wss st3) false (wss st) W4) as (D1 & D2 & D3).
+    { rewrite R4. intro Hh. apply Hws. unfold is_wss in Hw. rewrite Hh in Hw. symmetry. exact Hw. }
+    destruct f as [|k]; [lia|]. unfold ret.
+    rewrite expr_loop_stop.
+    - eexists. split; [reflexivity|]. repeat split.
+      + rewrite D1. exact R4.
+      + exact D2.
+      + rewrite D3. cbn. rewrite C3, B3, A5. reflexivity.
+    - unfold cur. rewrite D1, R4. assert (Wf : is_wss (pop_wss (advance_wss st3)) = w).
+      { unfold is_wss. rewrite D2. exact Hw. }
+      rewrite Wf. exact Hstop.
+  Qed.
+End Maps.
